@@ -32,7 +32,7 @@ NUMS = ['-1', '0', '1', '1.5', '2', '9', '09', '10', '1e1', '+1', '.5', '-0.5', 
         '999999999', '1000000000', '4294967296', '4294967297', '2.0000000001', '2.0000000002']
 NUM_OPS = {'=': operator.ge, '==': operator.eq, '!=': operator.ne, '<': operator.lt,
            '<=': operator.le, '>': operator.gt, '>=': operator.ge}
-STRS = ['a', 'b', 'ab', 'abc', 'B', '10', '9', '2.1.0', 'x-y', 'a,b', 'gcc', 'z_z']
+STRS = ['a', 'b', 'ab', 'abc', 'B', '10', '9', '2.1.0', 'x-y', 'a,b', 'gcc', 'z_z', '\u00e9', 'caf\u00e9', '\u4e2d\u6587']
 STR_OPS = {'s==': operator.eq, 's!=': operator.ne, 's<': operator.lt, 's<=': operator.le,
            's>': operator.gt, 's>=': operator.ge}
 WS = ['%s %s', '%s  %s', ' %s %s', '%s %s ', '%s%s']
